@@ -40,8 +40,10 @@ ACTIONS = ["ASelectHandler", "AEncodePassword", "AAuthUser", "AAuthOwner", "AAut
 
 SPACES = {
     "quick": [("auth", "AuthQuick", "PairsQuick", "AllTried", "CanonItem"),
+              ("dict", "DictCfg", "CanonPair", "DictTried", "CanonItem"),
               ("content", "ContentQuick", "CanonPair", "OpenTried", "AllItems")],
     "thorough": [("auth", "AuthFull", "PairsQuick", "AllTried", "CanonItem"),
+                 ("dict", "DictCfg", "CanonPair", "DictTried", "CanonItem"),
                  ("authpw", "AuthPw", "PairsFull", "AllTried", "CanonItem"),
                  ("content", "ContentFull", "CanonPair", "OpenTried", "AllItems"),
                  ("mixed", "MixedCfg", "MixedPairs", "MixedTried", "AllItems")],
@@ -64,12 +66,13 @@ def report(ck, key, what, case=None):
 
 # ---------------------------------------------------------------------------------------------- keys
 def cfg_key(c):
-    return (c["V"], c["R"], c["keylen"], c["cfm"], bool(c["em"]), tuple(sorted(c["perms"])), c["id"], c["form"], c["encplace"])
+    return (c["V"], c["R"], c["keylen"], c["cfm"], bool(c["em"]), tuple(sorted(c["perms"])), c["id"], c["form"], c["encplace"],
+            c.get("dv", "plain"))
 
 
 def alg_key(c):
     """the part of a configuration an item's fate depends on"""
-    return (c["V"], c["R"], c["keylen"], c["cfm"], bool(c["em"]), c["form"], c["encplace"])
+    return (c["V"], c["R"], c["keylen"], c["cfm"], bool(c["em"]), c["form"], c["encplace"], c.get("dv", "plain"))
 
 
 def item_key(it):
@@ -227,7 +230,7 @@ def direction_a(ck, dev):
     for i, (name, *consts) in enumerate(spaces):
         ck.add_tlc(results[i], "%s space: intended design (Dev = {}, invariants without excuses) and as coded (Dev = %s, "
                                "invariants up to the named deviations)" % (name, sorted(dev)))
-        need = [a for a in ACTIONS if not (name.startswith("auth") and a in ("AObserveTrailer", "AGetObjCached", "ASetObjid",
+        need = [a for a in ACTIONS if not ((name.startswith("auth") or name == "dict") and a in ("AObserveTrailer", "AGetObjCached", "ASetObjid",
                                                                     "AStreamDecode", "AFilters", "AParseObjStm"))
                 and not (name == "content" and a == "AReject")]
         require_coverage(results[i], need)
@@ -369,6 +372,90 @@ def direction_a(ck, dev):
     ck.extra["model_code_drift"] = drift
     if drift:
         ck.note("%d observations where the real code and the as-coded model disagree (spec/code drift)" % drift)
+
+
+# ---------------------------------------------------------------------------------------------- two documents
+TWO_SPEC = os.path.join(SPECS, "crypt", "MC_CryptTwo.tla")
+TWO_ITEMS = {"str": (10, ("S5",)), "stm": (102, ("<data>",))}
+TWO_PW = {"A": ("a", "b", 1), "B": ("L", "n", 2)}          # user, owner password class, seed (different keys)
+
+
+def two_cfg(kind, role, idx):
+    V = kind["V"]
+    c = {"V": V, "R": {2: 3, 4: 4, 5: 6 if idx % 2 else 5}[V], "keylen": {2: 128, 4: 128, 5: 256}[V],
+         "cfm": {"RC4": None if V == 2 else "V2", "AES128": "AESV2", "AES256": "AESV3"}[kind["alg"]], "em": True,
+         "perms": ("print",), "id": "present", "form": "table", "encplace": "indirect" if role == "B" else "direct",
+         "dv": "alt" if kind["fname"] == "VerifCF" else "plain", "upw": TWO_PW[role][0], "opw": TWO_PW[role][1]}
+    return c
+
+
+def run_two(job):
+    """(kind A, kind B, [histories]) -> list of (history index, doc, obj, observed class) that are not the document's plaintext"""
+    kinds, hists, idx = job
+    data, plain = {}, {}
+    for role in ("A", "B"):
+        cd = CryptDoc(two_cfg(kinds[role], role, idx), seed=TWO_PW[role][2])
+        data[role] = cd.encrypted()[0]
+        plain[role] = {o: next(it["plain"] for it in cd.items if it["objid"] == n and it["path"] == p) for o, (n, p) in TWO_ITEMS.items()}
+    bad = []
+    for hi, h in enumerate(hists):
+        docs = {}
+        for (act, d, o) in h:
+            if act == "open":
+                # alternate between the user and the owner password
+                st, doc = R.open_doc(data[d], PASSWORDS[TWO_PW[d][hi % 2]])
+                if doc is None:
+                    bad.append((hi, d, "open", st))
+                    break
+                docs[d] = doc
+            else:
+                n, p = TWO_ITEMS[o]
+                try:
+                    got = R.nav(docs[d], n, p)
+                except Exception as e:
+                    got = "exc:" + type(e).__name__
+                cl = R.classify(got, plain[d][o], None)
+                if cl != "plain":
+                    bad.append((hi, d, o, cl))
+    return bad
+
+
+def direction_two(ck):
+    """two documents open at the same time: every interleaving TLC enumerates on CryptTwo.tla, on real documents"""
+    kinds = "KindsQuick" if ck.tier == "quick" else "KindsFull"
+    cfg = write_cfg(os.path.join(ck.tmp, "c10_two.cfg"), constants={"Dev": "<- NoDev", "Kinds": "<- " + kinds},
+                    invariants=["OwnPlaintext", "TablePerDocument"], constraints=["EmitTerminal"])
+    emit = os.path.join(ck.tmp, "c10_two.ndjson")
+    res = run_tlc(TWO_SPEC, cfg, emit=emit, coverage=True, workers=4, timeout=1800, allow_violation=False)
+    ck.add_tlc(res, "two documents open at once: every pair of document kinds x every interleaving of Open/Read")
+    require_coverage(res, ["Open", "Read"])
+    groups = {}
+    for line in open(emit):
+        r = json.loads(line)
+        key = json.dumps(r["k"], sort_keys=True)
+        groups.setdefault(key, (r["k"], []))[1].append([tuple(x) for x in r["h"]])
+    os.remove(emit)
+    if not groups or sum(len(g[1]) for g in groups.values()) != res.emitted:
+        raise MachineryError("two-document behaviours lost")
+    jobs = [(k, hs, i) for i, (k, hs) in enumerate(sorted(groups.values(), key=lambda g: json.dumps(g[0], sort_keys=True)))]
+    with multiprocessing.get_context("fork").Pool(min(12, os.cpu_count() or 2)) as pool:
+        outs = pool.map(run_two, jobs)
+    n = 0
+    for (k, hs, i), bad in zip(jobs, outs):
+        n += len(hs)
+        ck.case(len(hs), ("two", json.dumps(k, sort_keys=True)))
+        for (hi, d, o, cl) in bad:
+            other = "B" if d == "A" else "A"
+            report(ck, "two:%s:%s" % (o, cl), "two documents open (%s: V%s %s filter %s; %s: V%s %s filter %s): after %s, %s of document %s "
+                   "is read back as %s instead of its own plaintext"
+                   % (d, k[d]["V"], k[d]["alg"], k[d]["fname"], other, k[other]["V"], k[other]["alg"], k[other]["fname"],
+                      " ".join("%s(%s%s)" % (a, dd, "" if oo == "-" else "," + oo) for a, dd, oo in hs[hi]), o, d, cl),
+                   {"two": True, "kinds": k, "history": [list(x) for x in hs[hi]], "index": i})
+    ck.replayed += n
+    ck.extra["two_document_interleavings_replayed"] = n
+    if len(ck.samples) < 8:
+        k, hs, i = jobs[-1]
+        ck.sample({"two documents": k, "interleaving": [list(x) for x in hs[len(hs) // 2]], "observed": "every read is the document's own plaintext"})
 
 
 # ---------------------------------------------------------------------------------------------- direction B
@@ -627,6 +714,7 @@ def run(ck):
                       "supplement is read as UTF-8 only, conservatively)",
                       "caching=True (the default); per-stream /Crypt filters, StmF != StrF, public-key handlers are outside the model"]
     direction_a(ck, dev)
+    direction_two(ck)
     direction_b(ck, dev)
     ck.exhaustive = True
 
@@ -634,6 +722,12 @@ def run(ck):
 def replay(path):
     doc = json.load(open(path))
     case = unjson(doc["case"])
+    if case.get("two"):
+        bad = run_two((case["kinds"], [[tuple(x) for x in case["history"]]], case.get("index", 0)))
+        print("history %s -> %s" % (case["history"], bad or "every read is the document's own plaintext"))
+        if bad:
+            print("VIOLATION property=C10 replay=%s" % path)
+        return 1 if bad else 0
     if "cfg" not in case:
         print("replay file has no realisable configuration (trace finding): %s" % doc.get("what"))
         return 1
